@@ -505,10 +505,20 @@ impl UntypedProgram {
                             }
                         }
                         ConstExprEnum::ExternalValue { party, identifier } => {
-                            const_deps
-                                .entry(party.clone())
-                                .or_default()
-                                .insert(identifier.clone(), (const_def.ty.clone(), meta));
+                            let deps = const_deps.entry(party.clone()).or_default();
+                            match deps.get(identifier) {
+                                // one supplied value cannot have two types
+                                Some((ty, _)) if ty != &const_def.ty => {
+                                    let e = TypeErrorEnum::UnexpectedType {
+                                        expected: ty.clone(),
+                                        actual: const_def.ty.clone(),
+                                    };
+                                    errors.extend(vec![Some(TypeError::new(e, meta))]);
+                                }
+                                _ => {
+                                    deps.insert(identifier.clone(), (const_def.ty.clone(), meta));
+                                }
+                            }
                         }
                         ConstExprEnum::ConstExprIdent(ident) => match const_defs.get(ident) {
                             Some(def) => {
